@@ -55,7 +55,9 @@ def strategy_(draw, tier):
             # leak into the reading of the entry under test) and a readdir permutation
             "neighbours": draw(st.sampled_from([0, 0, 1, 2, 3])), "perm": draw(st.integers(0, 50)),
             # spelling of the --trash-dir argument (only for the trash_dir kind)
-            "td_spelling": draw(st.sampled_from(["abs", "abs", "slash", "rel", "dotrel", "dslash"]))}
+            "td_spelling": draw(st.sampled_from(["abs", "abs", "slash", "rel", "dotrel", "dslash"])),
+            # file-system type the mount table reports for /vol (some commands filter the table by type)
+            "fstype": draw(st.sampled_from(["ext4", "ext4", "tmpfs", "overlay", "zfs", "fuse.sshfs"]))}
 
 
 def strategy(tier):
@@ -163,6 +165,8 @@ def run_case(case):
               "dslash": tdir.replace("/custom", "//custom")}[sp]   # (cwd is '/')
     td_opt = ["--trash-dir", td_arg] if tk == "trash_dir" else []
     spec = tw.spec(cwd="/")
+    if tk == "trash_dir":
+        spec["fstype"] = {"/vol": case.get("fstype", "ext4")}
     dev = sorted(set([case["header"], case["eol"], case["esc"], case["form"], case["date"]] +
                      ["dup_path:%s" % case["dup_path"], "dup_date:%s" % case["dup_date"]] +
                      (["extra"] if case["extra"] else [])) -
